@@ -61,8 +61,10 @@ def main() -> int:
                     op["requestBody"]["content"]["application/json; charset=utf-8"] = {"schema": {"type": "integer"}}
             elif what == "second_json_media":
                 # two media types of the same body kind with different schemas: each needs its own dispatch branch
-                op["requestBody"] = {"content": {"application/json": {"schema": {"type": "object", "properties": {"zq_full": {"type": "string"}}, "required": ["zq_full"]}},
-                                                 "application/merge-patch+json": {"schema": {"type": "object", "properties": {"zq_patch": {"type": "integer"}}, "required": ["zq_patch"]}}}}
+                # (referenced models: two inline bodies of one body kind would derive the same class name and the second be diagnosed)
+                d["components"]["schemas"]["ZqFullDoc"] = {"type": "object", "properties": {"zq_full": {"type": "string"}}, "required": ["zq_full"]}
+                d["components"]["schemas"]["ZqPatchDoc"] = {"type": "object", "properties": {"zq_patch": {"type": "integer"}}, "required": ["zq_patch"]}
+                op["requestBody"] = {"content": {"application/json": {"schema": {"$ref": "#/components/schemas/ZqFullDoc"}}, "application/merge-patch+json": {"schema": {"$ref": "#/components/schemas/ZqPatchDoc"}}}}
                 if r.random() < 0.5:
                     op["requestBody"]["content"]["multipart/form-data"] = {"schema": {"type": "object", "properties": {"zq_part": {"type": "string"}}, "required": ["zq_part"]}}
                 behavioural = True
@@ -171,7 +173,7 @@ def main() -> int:
                 if not reqs:
                     continue
                 for eff, det in expect.check_request(reqs[0], a["x"]):
-                    if "body" in eff or "form" in eff or "part" in eff or "content_type" in eff:
+                    if eff.startswith("content_type"):  # (what is inside the body is C03's concern; here: was this media type handled at all)
                         vd.violation("request_media_type_not_handled_by_function", f"{a['module']}.{variant}: body documented as {a['x']['body']['media']}: {det}", dict(w, action={k: v for k, v in a.items() if k != 'x'}))
                         break
         # ---- endpoint files
